@@ -11,6 +11,11 @@ func getErr(meta any) any {
 	switch metaValue := meta.(type) {
 	case *confirmed_block.TransactionStatusMeta:
 		out, _ := solanaerrors.ParseTransactionError(metaValue.Err)
+		if out == nil {
+			// return an untyped nil: a nil map wrapped in `any` compares != nil,
+			// which made every successful transaction look failed to callers.
+			return nil
+		}
 		return out
 	case *metalatest.TransactionStatusMeta:
 		switch status := metaValue.Status.(type) {
